@@ -30,7 +30,7 @@ NUMERIC = {
     'monthnum': ([2], 1, 12, [('month', lambda v: v)]),
     'day': ([1, 2, 3], 1, 31, [('day', lambda v: v)]),      # `day` takes any digit count
     'fullday': ([2], 1, 31, [('day', lambda v: v)]),
-    'min': ([2], 0, 60, [('minute', lambda v: v)]),
+    'min': ([2], 0, 59, [('minute', lambda v: v)]),          # a minute is 0..59 (the table once said 60, copied from the code: F27)
     'ordinal': ([3], 1, 366, [('ordinal', lambda v: v)]),
     'isoyear': ([4], 0, 9999, [('isoyear', lambda v: v)]),
     'isoweek': ([2], 1, 53, [('isoweek', lambda v: v)]),
@@ -567,3 +567,151 @@ class LiteralTimeOnly(Harness):
                 bad.append('`#%s#` with the clock at %s UTC denotes %s, expected the instant %s UTC' % (
                     t, _dt.datetime.fromtimestamp(n, _dt.timezone.utc).isoformat(), got, _dt.datetime.fromtimestamp(want, _dt.timezone.utc).isoformat()))
         return bool(bad), '; '.join(bad[:2]) or 'time-only literals denote today in their own offset'
+
+
+# --------------------------------------------------------------------------------------------------------------
+# A literal that names a zone: the instant is the one whose wall-clock reading *in that zone* is the one written.
+
+# local readings around the 2021 daylight-saving changes of four zones and the instants (unix seconds) they denote
+# (IANA rules as every tz database since 2007 has them; an ambiguous reading denotes its earlier instant, readings
+# inside a gap are left out)
+ZONE_READINGS = [
+    ('America/New_York', '2021-03-14 00:30', 1615699800), ('America/New_York', '2021-03-14 01:30', 1615703400),
+    ('America/New_York', '2021-03-14 03:30', 1615707000), ('America/New_York', '2021-03-14 04:30', 1615710600),
+    ('America/New_York', '2021-03-14 06:30', 1615717800), ('America/New_York', '2021-03-14 09:30', 1615728600),
+    ('America/New_York', '2021-03-14 20:15', 1615767300), ('America/New_York', '2021-11-07 00:30', 1636259400),
+    ('America/New_York', '2021-11-07 01:30', 1636263000), ('America/New_York', '2021-11-07 02:30', 1636270200),
+    ('America/New_York', '2021-11-07 03:30', 1636273800), ('America/New_York', '2021-11-07 04:30', 1636277400),
+    ('America/New_York', '2021-11-07 06:30', 1636284600), ('America/New_York', '2021-11-07 12:00', 1636304400),
+    ('America/New_York', '2021-07-01 12:00', 1625155200),
+    ('Europe/Berlin', '2021-03-28 00:30', 1616887800), ('Europe/Berlin', '2021-03-28 01:30', 1616891400),
+    ('Europe/Berlin', '2021-03-28 03:30', 1616895000), ('Europe/Berlin', '2021-03-28 04:30', 1616898600),
+    ('Europe/Berlin', '2021-03-28 12:00', 1616925600), ('Europe/Berlin', '2021-10-31 00:30', 1635633000),
+    ('Europe/Berlin', '2021-10-31 01:30', 1635636600), ('Europe/Berlin', '2021-10-31 02:30', 1635640200),
+    ('Europe/Berlin', '2021-10-31 03:30', 1635647400), ('Europe/Berlin', '2021-10-31 04:30', 1635651000),
+    ('Australia/Sydney', '2021-04-04 01:30', 1617460200), ('Australia/Sydney', '2021-04-04 02:30', 1617463800),
+    ('Australia/Sydney', '2021-04-04 03:30', 1617471000), ('Australia/Sydney', '2021-04-04 12:00', 1617501600),
+    ('Australia/Sydney', '2021-10-03 01:30', 1633188600), ('Australia/Sydney', '2021-10-03 03:30', 1633192200),
+    ('Australia/Sydney', '2021-10-03 09:30', 1633213800),
+    ('Asia/Tokyo', '2021-03-14 02:30', 1615656600), ('Asia/Tokyo', '2021-03-14 12:00', 1615690800),
+]
+
+
+def _stub_tz_from_str(ex, nc, args):
+    return ex.make_variant('Result', 'Ok', [Struct('Tz', [Opaque('tz_lit')])])
+
+
+def _stub_to_naive_date_day(ex, nc, args):
+    # the date fields are not spelled out in this harness: the date is an arbitrary calendar day (a day number)
+    d = ex.env['literal_day']
+    return ex.make_variant('Result', 'Ok', [Struct('NaiveDate', [d])])
+
+
+class LiteralNamedZone(Harness):
+    props = ('C14',)
+    entry = 'parsing::datetime::attempt'
+    loop_bound = 30
+    expect_classes = ['Result::Ok', 'Result::Err']
+    _concrete = None
+    stubs = ((r'^Parsed::new$', _stub_parsed_new, 'chrono Parsed::new -> all fields None'),
+             (r'^Parsed::to_naive_time$', _stub_to_naive_time, 'chrono Parsed::to_naive_time -> the time of day the fields spell'),
+             (r'^Parsed::to_naive_date$', _stub_to_naive_date_day, 'chrono Parsed::to_naive_date -> Ok(an arbitrary day)'),
+             (r'^<Tz as FromStr>::from_str$', _stub_tz_from_str, 'chrono_tz Tz::from_str -> Ok(an abstract named zone)'))
+
+    def __init__(self, kind):
+        self.kind = kind
+        self.name = 'datetime.attempt.%s_literal' % ('named_zone' if kind == 'named' else 'dated_time')
+        where = 'in the named zone' if kind == 'named' else 'in UTC (no offset written)'
+        self.describe = ('attempt() on `hour24:min%s` with symbolic digits on an arbitrary calendar day: the instant returned has, %s, exactly the '
+                         'wall-clock reading that was written%s; a literal whose time fields are out of range is refused, not read as another time') % (
+            ' <zone name>' if kind == 'named' else '', where,
+            ' (the zone is abstract: any offset function of the instant, so every daylight-saving rule at once), and a reading is refused only if no '
+            'instant has it' if kind == 'named' else '')
+        self.bounds = ['date fields replaced by an arbitrary day number (chrono Parsed::to_naive_date by contract); zone offsets are whole seconds within '
+                       '+-24 h; chrono TimeZone::from_local_datetime / offset_from_utc_datetime / from_utc_datetime by their documented contracts']
+
+    def build(self, ex, I):
+        hs, hh = digits(ex, I, 't', 2)
+        ms, mm = digits(ex, I, 'u', 2)
+        T = lambda k, f=(): variant(ex, 'DateToken', k, list(f))
+        P = lambda k, f=(): variant(ex, 'DatePattern', k, list(f))
+        toks = [T('Number', [SymStr(hs), none(ex)]), T('Colon'), T('Number', [SymStr(ms), none(ex)])]
+        pat = [P('Match', ['hour24']), P('Colon'), P('Match', ['min'])]
+        if self.kind == 'named':
+            toks += [T('Space'), T('Literal', ['Some/Zone'])]
+            pat += [P('Space'), P('Match', ['offset'])]
+        day = I.int('day')
+        ex.assume(z3.And(day > -10 ** 6, day < 10 ** 6))
+        ex.env['literal_day'] = day
+        ex.env['tz_gap_taken'] = False
+        now = mk_datetime(I.int('now_ns'), Struct('FixedOffset', [0]))
+        return [now, ref(Arr(toks)), ref(Arr(pat))], {'hh': hh, 'mm': mm, 'day': day}
+
+    def post(self, ex, ctx, outcome):
+        r = deref_all(outcome[1])
+        hh, mm, day = ctx['hh'], ctx['mm'], ctx['day']
+        valid = z3.And(hh <= 23, mm <= 59)
+        if is_err(r):
+            # refusing is right when the fields are out of range or the zone has no such reading (the contract's gap branch)
+            gap = bool(ex.env.get('tz_gap_taken'))
+            return [('a reading that exists is accepted', True if gap else z3.Not(valid))]
+        g = deref_all(payload(r))
+        want_variant = 'Timezone' if self.kind == 'named' else 'Fixed'
+        if not (isinstance(g, Enum) and g.vname == want_variant):
+            return [('the literal yields an instant in the zone it names', False)]
+        dt = deref_all(g.fields[0])
+        inst, zone = dt.fields[0], deref_all(dt.fields[1])
+        if not (isinstance(zone, Struct) and zone.name == ('Tz' if self.kind == 'named' else 'FixedOffset')):
+            return [('the instant carries the zone that was written', False)]
+        from mirsym.lib import zone_offset_ns
+        local = zint(inst) + zint(zone_offset_ns(ex, zone, inst))
+        want = zint(day) * 86400 * 10 ** 9 + (hh * 3600 + mm * 60) * 10 ** 9
+        return [('accepted only when the time fields are valid', valid),
+                ('the wall-clock reading of the instant is the one written', local == want)]
+
+    def prefer(self, ctx):
+        return [ctx['hh'] == 12, ctx['mm'] == 60]
+
+    def _hm(self, inputs):
+        g = lambda t: ''.join(chr(int(inputs['%s%d' % (t, i)])) for i in range(2))
+        return g('t'), g('u')
+
+    def native(self, inputs, label):
+        h, m = self._hm(inputs)
+        zone = ' America/New_York' if self.kind == 'named' else ''
+        reqs = [{'mode': 'query', 'text': '#2021-07-01 %s:%s%s# - #1970-01-01 00:00:00 +00:00#' % (h, m, zone)}]
+        if self.kind == 'named':
+            reqs += [{'mode': 'query', 'text': '#%s %s# - #1970-01-01 00:00:00 +00:00#' % (t, z)} for z, t, _ in ZONE_READINGS]
+        return reqs
+
+    def judge(self, inputs, label, obs):
+        bad = []
+        h, m = self._hm(inputs)
+        o = obs[0]
+        lit = '#2021-07-01 %s:%s%s#' % (h, m, ' America/New_York' if self.kind == 'named' else '')
+        got = obs_number_json(o)
+        if o.get('outcome') == 'panic' or o.get('render_panic'):
+            bad.append('`%s` panics: %s' % (lit, o.get('panic') or o.get('render_panic')))
+        elif int(h) > 23 or int(m) > 59:
+            if got is not None:
+                bad.append('`%s` is accepted and read as the instant %s s after the epoch' % (lit, got[0]))
+        else:
+            want = (1625112000 if self.kind == 'named' else 1625097600) + int(h) * 3600 + int(m) * 60
+            if got is None or got[0] != want:
+                bad.append('`%s` is %s, expected %d s after the epoch' % (lit, got[0] if got else o.get('display'), want))
+        for (z, t, want), o in zip(ZONE_READINGS, obs[1:]):
+            if o.get('outcome') == 'panic' or o.get('render_panic'):
+                bad.append('`#%s %s#` panics: %s' % (t, z, o.get('panic') or o.get('render_panic')))
+                continue
+            got = obs_number_json(o)
+            if got is None or got[0] != want:
+                bad.append('`#%s %s#` is %s s after the epoch, its reading in that zone denotes %d' % (t, z, got[0] if got else o.get('display'), want))
+        return bool(bad), '; '.join(bad[:3]) or 'the literal and readings around the 2021 daylight-saving changes of four zones denote the right instants'
+
+
+_c14d_prev = harnesses
+
+
+def harnesses(tier):   # noqa: F811
+    hs = _c14d_prev(tier)
+    return hs + [LiteralNamedZone('named'), LiteralNamedZone('utc')] if hs else hs
